@@ -594,7 +594,7 @@ func build(p params) scenario {
 	if p.kind == "rcm" && p.grace != "unset" {
 		sc.Grace = graceMs
 	}
-	if p.trigger == "pdeadline" {
+	if p.trigger == "pdeadline" || p.trigger == "pdeadline-pre" {
 		sc.PDL = 50
 	}
 	tag := func(s string) { sc.Tags = append(sc.Tags, s) }
@@ -624,7 +624,19 @@ func build(p params) scenario {
 		}
 		S("unpark", 0)
 	}
+	// the context given to Run has already ended (cancelled / past its deadline) when Run is called: every runner
+	// still has to be started, waited for, and its error reported
+	pre := p.trigger == "pcancel-pre" || p.trigger == "pdeadline-pre"
+	preEnd := func() {
+		switch p.trigger {
+		case "pcancel-pre":
+			S("pcancel", 0)
+		case "pdeadline-pre":
+			sleep(60)
+		}
+	}
 	if p.kind == "rm" {
+		preEnd()
 		if p.park != "" {
 			parked()
 		} else {
@@ -636,7 +648,10 @@ func build(p params) scenario {
 		case "pdeadline":
 			sleep(60)
 		}
-		for _, i := range p.rorder {
+		for k, i := range p.rorder {
+			if pre && k%2 == 1 {
+				sleep(30) // a runner that takes (virtual) time to return although its context is done
+			}
 			S("relr", i)
 		}
 		if p.extras {
@@ -688,6 +703,7 @@ func build(p params) scenario {
 	if gate && p.nr == 0 {
 		S("gateadd", lateID) // without runners the closers start together with Run
 	}
+	preEnd()
 	if p.closeAt == "racestart" {
 		st = append(st, step{Op: "run", NoWait: true}, step{Op: "close"})
 	} else if p.closeAt == "racestart-r" { // the goroutine created last usually runs first: this order lets Run win
@@ -721,6 +737,9 @@ func build(p params) scenario {
 	for k, i := range p.rorder {
 		if gate && k == len(p.rorder)-1 {
 			S("gateadd", lateID)
+		}
+		if pre && k%2 == 1 {
+			sleep(30)
 		}
 		S("relr", i)
 		if k == 0 && p.closeAt == "afterfirst" {
@@ -840,7 +859,7 @@ func tuples(alpha []string, n int) [][]string {
 var (
 	rClasses = []string{"nil", "err", "canceled", "deadline", "wcanceled", "ctxerr"}
 	cClasses = []string{"nil", "err", "kcanceled"}
-	triggers = []string{"runner", "close", "pcancel", "pdeadline"}
+	triggers = []string{"runner", "close", "pcancel", "pdeadline", "pcancel-pre", "pdeadline-pre"}
 	closeAts = []string{"none", "before", "before2", "racestart", "racestart-r", "during2", "afterfirst", "closers", "after", "after2"}
 	graces   = []string{"unset", "generous", "exceeded", "boundary", "tie"}
 	lates    = []string{"none", "during", "mix", "closing", "after", "gate-after", "gate-closing"}
@@ -883,8 +902,8 @@ func generate(rng *rand.Rand) []scenario {
 		}
 		for _, rr := range tuples(alpha, nr) {
 			for _, ord := range perms(nr) {
-				for ti, trg := range []string{"runner", "pcancel", "pdeadline"} {
-					if !thorough && nr == 3 && rng.Intn(3) != 0 {
+				for ti, trg := range []string{"runner", "pcancel", "pdeadline", "pcancel-pre", "pdeadline-pre"} {
+					if !thorough && nr == 3 && rng.Intn(4) != 0 {
 						continue
 					}
 					add(params{kind: "rm", nr: nr, rres: rr, rorder: ord, trigger: trg, addOne: (len(out)+ti)%2 == 0, extras: true})
@@ -943,7 +962,7 @@ func generate(rng *rand.Rand) []scenario {
 	//     while Add and AddCloser are called from another goroutine
 	for nr := 0; nr <= 2; nr++ {
 		for _, ro := range perms(nr) {
-			for _, trg := range []string{"runner", "pcancel"} {
+			for _, trg := range []string{"runner", "pcancel", "pcancel-pre", "pdeadline-pre"} {
 				add(params{kind: "rm", nr: nr, rres: randTuple(rng, rClasses, nr), rorder: ro, trigger: trg, addOne: rng.Intn(2) == 0,
 					extras: true, park: "inner"})
 			}
@@ -1024,7 +1043,7 @@ func TestCheck(t *testing.T) {
 	// 2 x 1; 1 runner x 3 closers), side by side
 	mcCfgs := ev.Pick([]string{"MC_small.cfg"}, []string{"MC_big.cfg", "MC_big_classes.cfg", "MC_big_closers.cfg"})
 	mcs := make([]tlc.Result, len(mcCfgs))
-	defects := []string{"MC_defect_addnocheck.cfg", "MC_defect_addcloser.cfg", "MC_defect_errsearly.cfg", "MC_defect_releaselate.cfg", "MC_defect_filterctxerr.cfg"}
+	defects := []string{"MC_defect_skipctxdone.cfg", "MC_defect_addnocheck.cfg", "MC_defect_addcloser.cfg", "MC_defect_errsearly.cfg", "MC_defect_releaselate.cfg", "MC_defect_filterctxerr.cfg"}
 	dres := make([]tlc.Result, len(defects))
 	for i := range mcCfgs {
 		wg.Add(1)
@@ -1094,7 +1113,7 @@ func TestCheck(t *testing.T) {
 		"Add racing the start of Run (unsynchronised access to the runner slice) is not staged; closers always return eventually",
 		"the fatal-shutdown action is replaced by a recording function (WithFatalShutdown), so the behaviour after it fired is observed instead of the process exiting")
 	e.Set("scenarios_with_goroutines_left_blocked", int64(dead))
-	e.Set("rule", "every case = one scripted life of a manager: (plain or closer manager; 0..N runners each returning nil | an error | an error wrapping DeadlineExceeded | context.Canceled | an error wrapping Canceled | ctx.Err(); 0..N closers of the types io.Closer / func(context.Context) error / func() error / func() each returning nil | an error | an error wrapping Canceled; the order in which the harness lets the runners and the closers return; what ends the run: a runner returning, Close, cancellation or deadline of the parent context; where Close is called: never, before Run (once / three times), racing the start of Run (either call issued first), twice concurrently during the run, after the first runner returned, while the closers run, after Run returned (once / three times); grace period unset | closers well within | closers exceed it | probed 1ms before and 1ms after | a closer returning at the very instant; AddCloser: during the run, mixed with an unsupported value, while the closers run, after Run returned, stopped between its closing check and the lock until the closers finished / ran; unsupported closer type, second Run, Add after Run, Add / AddCloser / Run after Close on a manager that never ran; Run held right after its running CAS (verif points closer.run.afterCAS, runner.run.afterCAS) while Add and AddCloser are called). Exhaustive over result assignments x completion orders for the plain manager (<=3 runners, 4 in thorough) and for the closer manager (<=2x2, 3x3 in thorough), exhaustive over Close placement x grace mode x AddCloser mode x completion orders (<=2x2, 3x3 thorough), seeded-random above. The harness steps one action at a time and records a quiescence event (synctest.Wait) after each; non-trivial = at least two parties released, or a Close call, or a grace period; distinct by the full scenario")
+	e.Set("rule", "every case = one scripted life of a manager: (plain or closer manager; 0..N runners each returning nil | an error | an error wrapping DeadlineExceeded | context.Canceled | an error wrapping Canceled | ctx.Err(); 0..N closers of the types io.Closer / func(context.Context) error / func() error / func() each returning nil | an error | an error wrapping Canceled; the order in which the harness lets the runners and the closers return; what ends the run: a runner returning, Close, cancellation or deadline of the parent context during the run, or a parent context that has already been cancelled / is past its deadline when Run is called (runners then return at once or after a virtual delay); where Close is called: never, before Run (once / three times), racing the start of Run (either call issued first), twice concurrently during the run, after the first runner returned, while the closers run, after Run returned (once / three times); grace period unset | closers well within | closers exceed it | probed 1ms before and 1ms after | a closer returning at the very instant; AddCloser: during the run, mixed with an unsupported value, while the closers run, after Run returned, stopped between its closing check and the lock until the closers finished / ran; unsupported closer type, second Run, Add after Run, Add / AddCloser / Run after Close on a manager that never ran; Run held right after its running CAS (verif points closer.run.afterCAS, runner.run.afterCAS) while Add and AddCloser are called). Exhaustive over result assignments x completion orders for the plain manager (<=3 runners, 4 in thorough) and for the closer manager (<=2x2, 3x3 in thorough), exhaustive over Close placement x grace mode x AddCloser mode x completion orders (<=2x2, 3x3 thorough), seeded-random above. The harness steps one action at a time and records a quiescence event (synctest.Wait) after each; non-trivial = at least two parties released, or a Close call, or a grace period; distinct by the full scenario")
 	for _, i := range []int{len(scs) / 7, len(scs) / 2, len(scs) - 3} {
 		evs, _, _ := runScenario(t, scs[i])
 		b := &tv.Batch{}
